@@ -7,6 +7,7 @@
      TRIPLE <a> <b> <c> <ab> <bc> <ac> <ba> <cb> <ca>
      COMP <c> <d> <cmp> <eq> <bytes_c> <bytes_d>
      BYTES <a> <hex>                               Name.Bytes
+     BRT <a> ok <name> | err | panic               NameFromBytes(Name.Bytes())
      FROMBYTES <hex> ok <name> | err               NameFromBytes
      HASH <a> <0|1>                                relational hash checks done in Go (1 = held)
      STR <a> <hex>                                 Name.String
@@ -139,6 +140,12 @@ let () =
       | "FROMBYTES" :: h :: rest ->
           let m = match name_from_bytes (unhexf h) with Some n -> "ok " ^ string_of_name n | None -> "err" in
           cmpstr "FROMBYTES" m (String.concat " " rest)
+      | "BRT" :: a :: rest ->
+          let na = name_of_string a in
+          let m = match name_from_bytes (name_bytes na) with Some n -> "ok " ^ string_of_name n | None -> "err" in
+          cmpstr "BRT" m (String.concat " " rest);
+          let r = match rest with ["ok"; n] -> Some (name_of_string n) | _ -> None in
+          if not (brt_ok na r) then specfail "BRT" "NameFromBytes(n.Bytes()) <> n (brt_ok): the encoding does not determine the name"
       | ["HASH"; a; ok] -> if ok <> "1" then specfail "HASH" "equal names hash differently or PrefixHash[i] <> Hash(prefix i)"
       | ["STR"; a; h] ->
           cmpstr "STR" (hexf (name_to_str (name_of_string a))) h
